@@ -480,7 +480,7 @@ pub fn directed(names: &[String]) -> Vec<Trace> {
     for (ci, code) in pools::BRAILLE_CODES.iter().enumerate() {
         for tts in ["None", "SSML", "SAPI5"] {
             let mut steps = vec![set("BrailleCode", code), set("TTS", tts)];
-            for (k, e) in [59usize, 60, 2, 10, 50, 55, 7, 18].iter().enumerate() {
+            for (k, e) in [59usize, 60, 2, 10, 50, 55, 7, 18, pools::expr_brackets() - 1].iter().enumerate() {
                 if (k + ci) % 2 == 1 && tts != "SAPI5" {
                     continue; // half of the expressions per (code, engine), all of them under SAPI5
                 }
